@@ -76,4 +76,4 @@ pub fn with_capacity_const<T>(cap: usize) -> Vec<T> {
     assert!(cap <= CONST_CAP, "requested capacity exceeds the harness constant");
     Vec::with_capacity_in(CONST_CAP, std::alloc::Global)
 }
-pub const CONST_CAP: usize = 160;
+pub const CONST_CAP: usize = 240;
